@@ -78,18 +78,31 @@ def run_scripts(chk, scripts, flags, tag, stop_bound_ms=4000):
     traces = vlib.parallel(drive, range(nsh))
     n = ev = 0
     rejected = []
-    for tp in traces:
-        res = chk.tlc_trace("AgentTrace", "AgentTrace.cfg", tp, consts=consts)
+    # validate in batches of a few histories (a TLC run per batch, in parallel): bounded time per run also in the thorough tier
+    batches = []
+    for ti, tp in enumerate(traces):
         parts = vlib.split_traces(tp)
         n += len(parts)
         ev += sum(len(p[1]) for p in parts)
+        for b in range(0, len(parts), 6):
+            bp = os.path.join(d, "b%d-%d.ndjson" % (ti, b))
+            open(bp, "w").write("".join("".join(lines) for _, lines in parts[b:b + 6]))
+            batches.append((bp, parts[b:b + 6]))
+
+    def validate(item):
+        bp, parts = item
+        rej = []
+        res = chk.tlc_trace("AgentTrace", "AgentTrace.cfg", bp, consts=consts, timeout=1800)
         if not res["accepted"]:
             for sid, lines in parts:
                 p = os.path.join(d, "single-%s.ndjson" % sid)
                 open(p, "w").write("".join(lines))
-                r1 = chk.tlc_trace("AgentTrace", "AgentTrace.cfg", p, consts=consts)
+                r1 = chk.tlc_trace("AgentTrace", "AgentTrace.cfg", p, consts=consts, timeout=1800)
                 if not r1["accepted"]:
-                    rejected.append((byid.get(sid), p, r1))
+                    rej.append((byid.get(sid), p, r1))
+        return rej
+    for rej in vlib.parallel(validate, batches):
+        rejected += rej
     return n, ev, rejected, consts
 
 
